@@ -1787,9 +1787,11 @@ bool SchindelhauerTMCG::TMCG_VerifyStackEquality_Groth
 	}
 	if (s.size() != s2.size())
 		return false;
-	// check whether the elements of the shuffled stack belong to the group
+	// check whether the elements of both stacks belong to the group
 	for (size_t i = 0; i < s2.size(); i++)
 	{
+		if (!vtmf->CheckElement(s[i].c_1) || !vtmf->CheckElement(s[i].c_2))
+			return false;
 		if (!vtmf->CheckElement(s2[i].c_1) || !vtmf->CheckElement(s2[i].c_2))
 			return false;
 	}
@@ -1819,9 +1821,11 @@ bool SchindelhauerTMCG::TMCG_VerifyStackEquality_Groth_noninteractive
 	}
 	if (s.size() != s2.size())
 		return false;
-	// check whether the elements of the shuffled stack belong to the group
+	// check whether the elements of both stacks belong to the group
 	for (size_t i = 0; i < s2.size(); i++)
 	{
+		if (!vtmf->CheckElement(s[i].c_1) || !vtmf->CheckElement(s[i].c_2))
+			return false;
 		if (!vtmf->CheckElement(s2[i].c_1) || !vtmf->CheckElement(s2[i].c_2))
 			return false;
 	}
@@ -1846,9 +1850,11 @@ bool SchindelhauerTMCG::TMCG_VerifyStackEquality_Hoogh
 	}
 	if (s.size() != s2.size())
 		return false;
-	// check whether the elements of the shuffled stack belong to the group
+	// check whether the elements of both stacks belong to the group
 	for (size_t i = 0; i < s2.size(); i++)
 	{
+		if (!vtmf->CheckElement(s[i].c_1) || !vtmf->CheckElement(s[i].c_2))
+			return false;
 		if (!vtmf->CheckElement(s2[i].c_1) || !vtmf->CheckElement(s2[i].c_2))
 			return false;
 	}
@@ -1876,9 +1882,11 @@ bool SchindelhauerTMCG::TMCG_VerifyStackEquality_Hoogh_noninteractive
 	}
 	if (s.size() != s2.size())
 		return false;
-	// check whether the elements of the shuffled stack belong to the group
+	// check whether the elements of both stacks belong to the group
 	for (size_t i = 0; i < s2.size(); i++)
 	{
+		if (!vtmf->CheckElement(s[i].c_1) || !vtmf->CheckElement(s[i].c_2))
+			return false;
 		if (!vtmf->CheckElement(s2[i].c_1) || !vtmf->CheckElement(s2[i].c_2))
 			return false;
 	}
